@@ -380,8 +380,9 @@ class Gen:
                 cases.append([None, self.block(nest + 1, L, in_fsm)])
             return [["switch", test, cases]]
         cand = [f for f in range(len(sp.fsms)) if f not in self.fsm_used]
-        if not cand or in_fsm is not None:
+        if not cand or (in_fsm is not None and rng.random() < 0.5):
             return [self.assign(lower)]
+        # (inside a State of another FSM this makes a nested FSM: its m.next binds to the innermost one)
         return [self.fsm_stmt(cand[0], nest, lower)]
 
     def fsm_stmt(self, k, nest, lower):
@@ -391,6 +392,10 @@ class Gen:
         bodies = []
         for name in sp.fsms[k]["states"]:
             body = self.block(nest + 1, lower, in_fsm=k)
+            cand = [f for f in range(len(sp.fsms)) if f not in self.fsm_used]
+            if cand and nest + 1 < self.max_nest + 1 and self.rng.random() < 0.4:
+                # an FSM nested in this State (usually with state names the outer FSM has too)
+                body.insert(self.rng.randrange(len(body) + 1), self.fsm_stmt(cand[0], nest + 1, lower))
             if self.rng.random() < 0.6:
                 body.append(self.next_stmt(k))
             bodies.append([name, body])
@@ -526,6 +531,9 @@ def stmt_kinds(stmts, acc=None, nest=0):
                 stmt_kinds(body, acc, nest + 1)
         elif op == "fsm":
             for name, body in st[2]:
+                sub = stmt_kinds(body, None, 0)
+                if sub.get("fsm"):
+                    acc["nested-fsm"] = acc.get("nested-fsm", 0) + sub["fsm"]
                 stmt_kinds(body, acc, nest + 1)
     return acc
 
